@@ -539,8 +539,15 @@ def adv_instances(tier, want_contiguous):
     out = []
     kinds = ["int", "s111", "arr"] if tier != "thorough" else \
         ["int", "s111", "s000", "arr", "arrnn"]
-    for r in (1, 2, 3):
-        for combo in itertools.product(kinds, repeat=r):
+    combos = [c for r in (1, 2, 3) for c in itertools.product(kinds, repeat=r)]
+    # rank 4: advanced indices *preceded by a slice* (the only way to have a
+    # slice in front of non-adjacent advanced indices), and friends
+    S = "s111" if tier == "thorough" else "s000"   # (full slices: quick)
+    combos += [(S, "arr", S, "arr"), (S, "int", S, "arr"),
+               (S, "arr", S, "int"), (S, "arr", "arr", S),
+               (S, S, "arr", "arr"), ("arr", S, S, "arr")]
+    for combo in combos:
+        if True:
             narr = sum(1 for c in combo if c.startswith("arr"))
             if narr == 0:
                 continue
@@ -548,7 +555,7 @@ def adv_instances(tier, want_contiguous):
             contiguous = adv == list(range(adv[0], adv[-1] + 1))
             if contiguous != want_contiguous:
                 continue
-            if tier != "thorough" and sum(
+            if tier != "thorough" and len(combo) < 4 and sum(
                     1 for c in combo if c.startswith("s")) > 1:
                 continue    # two slices + arrays: thorough tier only
             for pats in adv_patterns(narr, tier):
